@@ -41,6 +41,8 @@ func (c09) Cases(tier string, seed int64, kf *KnownFindings) []Case {
 		}
 		blens := []int{0, 1, 14, 15, 16, 17, 1023, 1024, 1025, 4094, 4095, 4096, 4097, 4098, 8191, 8192, 8193, 12287, 12288, 12289, 12328}
 		add(Case{Kind: "binlens", Vec: blens})
+		add(Case{Kind: "binlens", Vec: c09bigBin})
+		add(Case{Kind: "foreign", Count: len(c09foreign())})
 		add(Case{Kind: "wide", N: 2048})
 		for i := 0; i < 8; i++ {
 			add(Case{Kind: "positions", Seed: Mix(seed, i), Count: 150})
@@ -63,6 +65,8 @@ func (c09) Cases(tier string, seed int64, kf *KnownFindings) []Case {
 			}
 			add(Case{Kind: "binlens", Vec: lens})
 		}
+		add(Case{Kind: "binlens", Vec: c09bigBin})
+		add(Case{Kind: "foreign", Count: len(c09foreign())})
 		add(Case{Kind: "wide", N: 2048})
 		for i := 0; i < 64; i++ {
 			add(Case{Kind: "positions", Seed: Mix(seed, i), Count: 1500})
@@ -72,6 +76,43 @@ func (c09) Cases(tier string, seed int64, kf *KnownFindings) []Case {
 		}
 	}
 	return cs
+}
+
+// lengths around the largest chunk a header can announce (two length octets) and whole multiples of 4096 beyond it
+var c09bigBin = []int{32767, 32768, 61440, 65535, 65536, 65537, 69632, 73728, 131072}
+
+type c09foreignMsg struct {
+	name  string
+	wire  []byte
+	isBin bool
+	want  string
+}
+
+// c09foreign: legal renderings by OTHER encoders: one chunk may hold up to 65535 characters / octets
+// (this library cuts at 2048 / 4096; Java cuts strings at 32768)
+func c09foreign() []c09foreignMsg {
+	var out []c09foreignMsg
+	for _, n := range []int{2049, 32767, 32768, 40000, 65535} {
+		for ci, unit := range []string{"a", "é", "世"} {
+			s := strings.Repeat(unit, n)
+			w := append([]byte{'S', byte(n >> 8), byte(n)}, s...)
+			out = append(out, c09foreignMsg{fmt.Sprintf("one final string chunk of %d characters (class %d)", n, ci), w, false, s})
+		}
+		b := bytes.Repeat([]byte{0xa5}, n)
+		out = append(out, c09foreignMsg{fmt.Sprintf("one final binary chunk of %d octets", n), append([]byte{'B', byte(n >> 8), byte(n)}, b...), true, string(b)})
+	}
+	// Java style: non-final chunks of 0x8000 characters, then the rest
+	s := strings.Repeat("j", 0x8000) + strings.Repeat("é", 0x8000) + "tail"
+	w := append([]byte{'R', 0x80, 0x00}, strings.Repeat("j", 0x8000)...)
+	w = append(w, 'R', 0x80, 0x00)
+	w = append(w, strings.Repeat("é", 0x8000)...)
+	w = append(w, 0x04, 't', 'a', 'i', 'l')
+	out = append(out, c09foreignMsg{"two non-final chunks of 32768 characters and a short final one", w, false, s})
+	bb := bytes.Repeat([]byte{7}, 0xffff)
+	wb := append([]byte{'A', 0xff, 0xff}, bb...)
+	wb = append(wb, 0x22, 1, 2)
+	out = append(out, c09foreignMsg{"a non-final binary chunk of 65535 octets and a short final one", wb, true, string(bb) + "\x01\x02"})
+	return out
 }
 
 func strOfClass(r *rand.Rand, class string, n int) string {
@@ -372,8 +413,50 @@ func (c09) Run(c Case, env *Env) Result {
 			b := make([]byte, l)
 			rand.New(rand.NewSource(Mix(c.Seed+2, l))).Read(b)
 			c09check(env, &res, c, j, "top", true, string(b))
+			// the same byte array as a struct field, a list element and a map value (other read paths)
+			c09check(env, &res, c, j, "field", true, string(b))
+			if l%3 == 0 || l > 4096 {
+				c09check(env, &res, c, j, "elem", true, string(b))
+				c09check(env, &res, c, j, "mapval", true, string(b))
+			}
 		}
 		res.Sample(map[string]interface{}{"kind": "binary lengths", "lengths": fmt.Sprintf("%d..%d (%d)", c.Vec[0], c.Vec[len(c.Vec)-1], len(c.Vec))})
+	case "foreign":
+		msgs := c09foreign()
+		lo, hi := subRange(c)
+		for j := lo; j < hi && j < len(msgs); j++ {
+			m := msgs[j]
+			res.Evals++
+			res.NT = append(res.NT, Hash64(m.name))
+			cc := c
+			cc.Sub = j
+			var out interface{}
+			var err error
+			pi, _ := Guard(func() { out, err = hessian.ToObject(m.wire, nil) })
+			feats := []string{"foreign-chunking"}
+			viol := func(class, d string) {
+				env.Viol(&res, Violation{Class: class, Features: feats, Detail: m.name + " (" + hexClip(m.wire) + "): " + d, Case: cc})
+			}
+			switch {
+			case pi != nil:
+				viol(pi.Class, "panic "+pi.Msg)
+			case err != nil:
+				viol("dec-error", err.Error())
+			default:
+				got, ok := "", false
+				if m.isBin {
+					var b []byte
+					b, ok = out.([]byte)
+					got = string(b)
+				} else {
+					got, ok = out.(string)
+				}
+				if !ok || got != m.want {
+					viol("mismatch:content", fmt.Sprintf("decoded %T of %d bytes, want %d bytes", out, len(got), len(m.want)))
+				}
+			}
+		}
+		res.Sample(map[string]interface{}{"kind": "foreign chunking", "messages": len(msgs)})
 	case "wide":
 		// ASCII with one wide code point at every offset within +-4 of each chunk boundary
 		j := 0
